@@ -289,6 +289,53 @@ def worker(job):
     return part.dump()
 
 
+MEM_CEILING = 3 << 30
+
+
+def memory_cases():
+    """valid scripts whose run is long AND whose stack is large (both within the consensus limits): thousands of operations, most of
+    them not even executed, over ~1000 items of 520 bytes.  The stack itself is half a megabyte; a run needs a small multiple of that."""
+    items = [bytes([i & 255 or 1]) * 520 for i in range(997)]
+    out = []
+    out.append(('unexecuted-pushes-over-997x520', bytes([OP_0, OP_IF]) + bytes([OP_1]) * 9000 + bytes([OP_ENDIF, OP_1]), items))
+    out.append(('executed-push-drop-pairs-over-997x520', bytes([OP_1, OP_DROP]) * 150 + bytes([OP_0, OP_IF]) + bytes([OP_2]) * 9000 + bytes([OP_ENDIF]), items))
+    out.append(('alt-stack-holds-the-items', bytes([OP_TOALTSTACK]) * 190 + bytes([OP_0, OP_IF]) + bytes([OP_3]) * 9500 + bytes([OP_ENDIF]), items))
+    out.append(('operation-limit-hit-after-a-long-run', bytes([OP_0, OP_IF]) + bytes([OP_4]) * 9000 + bytes([OP_ENDIF]) + bytes([OP_NOP]) * 200, items))
+    out.append(('small-stack-control', bytes([OP_0, OP_IF]) + bytes([OP_1]) * 9000 + bytes([OP_ENDIF, OP_1]), [b'\x01']))
+    return out
+
+
+def memory_worker(job):
+    """bounded resources: the same non-interactive runs on the plain build under an address-space ceiling of 3 GiB - several thousand
+    times the size of the data involved.  Running out of memory ends the process abnormally (std::bad_alloc), which the property excludes."""
+    plain, idx = job
+    from vf import proc
+    part = Partial()
+    wd = scratch('c08m')
+    btcdeb = os.path.join(plain, 'btcdeb')
+    try:
+        for j, (name, script, stack) in enumerate(memory_cases()):
+            if j % 5 != idx:
+                continue
+            want = ref_run(script, stack, STANDARD, BASE)
+            args = ['0x' + script.hex()] + ['0x' + x.hex() for x in stack]
+            r = proc.run([btcdeb] + args, wd, mode='ptyin', timeout=300, rlimit_as=MEM_CEILING)
+            part.evaluations += 1
+            part.count('bounded_memory', name)
+            wit = dict(case=name, script=script.hex()[:200] + '...', script_bytes=len(script), stack_items=len(stack), item_bytes=len(stack[0]), address_space_ceiling=MEM_CEILING, reference=want[0],
+                       run={k: v for k, v in r.brief().items() if k in ('rc', 'sig', 'timeout', 'stderr')})
+            if r.abnormal:
+                part.violation('bounded-memory:' + r.crash_key('btcdeb'), wit)
+                continue
+            if (want[0] == 'ok' and (r.rc != 0 or r.stdout.decode('latin1') != expected_stdout(want[1]))) or (want[0] != 'ok' and r.rc != 1):
+                part.violation('bounded-memory:result-differs', wit)
+                continue
+            part.nontrivial.add(nt_hash('mem', name))
+    finally:
+        cleanup_scratch(wd)
+    return part.dump()
+
+
 def main():
     ap = argparse.ArgumentParser()
     ap.add_argument('--tier', default=os.environ.get('VERIF_TIER', 'quick'))
@@ -304,10 +351,13 @@ def main():
     n = 150 if a.tier == 'quick' else 3000
     for r in parallel(worker, [(bindir, i, n) for i in range(16)]):
         rep.merge(r)
+    plain = vbuild.build('plain')
+    for r in parallel(memory_worker, [(plain, i) for i in range(5)]):
+        rep.merge(r)
     return rep.finish(
         rule='scripts from the C01 generators (model-steered deep scripts, op soups, byte-level strings) plus scripts whose failure is raised as a C++ exception (numeric overflow, non-minimal numbers, empty-stack pops) and signature contexts with --tx/--txin; '
              'each run three times with different {--quiet, --debug=<subset>, DEBUG_* variables} in a random one of the three non-terminal stdin/stdout combinations, script on stdin or argv; '
-             'every tenth case also with --verbose (must be refused), every seventh also through the scripted interactive session. non-trivial = distinct (script, stack, mode, options) whose stdout/stderr/exit status matched the reference outcome',
+             'every tenth case also with --verbose (must be refused), every seventh also through the scripted interactive session; plus four long runs over a ~1000 x 520-byte stack on the plain build under a 3 GiB address-space ceiling (resource fault injection). non-trivial = distinct (script, stack, mode, options) whose stdout/stderr/exit status matched the reference outcome',
         assumptions=['ref/script.py gives outcome and final stack (C01)', 'scripts longer than 480 bytes are passed on argv only (the stdin reader takes one line of at most 1023 characters)',
                      'on failure only the presence of a script error on stderr and exit status 1 are demanded, not the wording'],
         min_events=300)
